@@ -260,3 +260,351 @@ Proof.
 Qed.
 
 End SubZ.
+
+(** ** The count *)
+
+Section CountZ.
+Variable s : snap.
+Hypothesis B : ZbddOK s.
+Variable r : ref.
+Variable f : cfun.
+Hypothesis Hf : levels_only (nlevels s) f.
+Hypothesis D : ZDen s r (PZ f 0 (nlevels s) (fun _ => 0)).
+
+Let H : WF s := zo_wf s B.
+
+(** the characteristic function of the family of [x], seen from level [L] *)
+Definition zf (L : nat) (x : ref) : cfun :=
+  fun c => match fam_of s x with
+           | Some F => fmem (true_levels c L (nlevels s - L)) F
+           | None => false
+           end.
+
+Lemma zf_den : forall L x (P : fpred) c, ZDen s x P ->
+  (zf L x c = true <-> P (true_levels c L (nlevels s - L))).
+Proof. intros L x P c [_ [F [EF HF]]]. unfold zf. rewrite EF, fmem_spec. apply HF. Qed.
+
+Definition zkey (L : nat) (x : ref) : list bool * list bool :=
+  (table (S L) (nlevels s - S L) (zf L x) (cset (fun _ => 0) L 0),
+   table (S L) (nlevels s - S L) (zf L x) (cset (fun _ => 0) L 1)).
+
+(** the family of [x], read at a merged choice, is [f] at the corresponding merged choice *)
+Lemma zf_merge : forall L k p x i q, L + S k = nlevels s -> bchoice p -> ZDen s x (Q s f L p) ->
+  i < 2 -> bchoice q ->
+  zf L x (cmerge (S L) k (cset (fun _ => 0) L i) q) = f (cmerge (S L) k (cset (pre L p) L i) q).
+Proof.
+  intros L k p x i q Hn Hp Dx Hi Hq.
+  set (c1 := cmerge (S L) k (cset (fun _ => 0) L i) q).
+  assert (Hc1 : bchoice c1)
+    by (apply bchoice_cmerge; [apply bchoice_cset; [apply bchoice_zero | exact Hi] | exact Hq]).
+  set (T := true_levels c1 L (nlevels s - L)).
+  apply (bool_iff_eq _ _ (Q s f L p T)); [apply (zf_den L x _ c1 Dx)|].
+  assert (X : f (cmerge L (nlevels s - L) (pre L p) (cs T)) = f (cmerge (S L) k (cset (pre L p) L i) q)).
+  { apply Hf. intros l Hl. rewrite !cmerge_spec. unfold cset.
+    destruct (Nat.leb_spec L l), (Nat.ltb_spec l (L + (nlevels s - L))),
+             (Nat.leb_spec (S L) l), (Nat.ltb_spec l (S L + k)), (Nat.eqb_spec l L);
+      simpl; subst; try reflexivity; try lia.
+    - unfold T. rewrite (cs_true_levels c1 _ L l Hc1) by lia. unfold c1. rewrite cmerge_spec.
+      destruct (Nat.leb_spec (S L) l), (Nat.ltb_spec l (S L + k)); simpl; [reflexivity | lia | lia | lia].
+    - unfold T. rewrite (cs_true_levels c1 _ L L Hc1) by lia. apply merge_at. }
+  unfold Q, PZ. rewrite X. split.
+  - intros Hv. split; [apply true_levels_incr|]. split; [apply true_levels_lt | exact Hv].
+  - intros [_ [_ Hv]]. exact Hv.
+Qed.
+
+Lemma zkey_is_pair : forall L p x, L < nlevels s -> bchoice p -> ZDen s x (Q s f L p) ->
+  zkey L x = pair_at 0 L (nlevels s - S L) f (fun _ => 0) p.
+Proof.
+  intros L p x HL Hp Dx. unfold zkey, pair_at. simpl Nat.add. fold (pre L p).
+  set (k := nlevels s - S L). assert (Hn : L + S k = nlevels s) by (unfold k; lia).
+  f_equal; apply table_ext; intros q Hq; apply (zf_merge L k p x _ q Hn Hp Dx); [lia | exact Hq | lia | exact Hq].
+Qed.
+
+Lemma hi_nonempty_iff : forall L p,
+  hi_nonempty (pair_at 0 L (nlevels s - S L) f (fun _ => 0) p) = true <-> exists T, Qc s f L p 0 T.
+Proof.
+  intros L p. unfold hi_nonempty, pair_at. simpl Nat.add. simpl fst. fold (pre L p).
+  apply any_true_PZ.
+Qed.
+
+Lemma lo_empty_iff : forall L p,
+  any_true (snd (pair_at 0 L (nlevels s - S L) f (fun _ => 0) p)) = false <-> forall T, ~ Qc s f L p 1 T.
+Proof.
+  intros L p. unfold pair_at. simpl Nat.add. simpl snd. fold (pre L p). split.
+  - intros E T HT. assert (X : any_true (table (S L) (nlevels s - S L) f (cset (pre L p) L 1)) = true)
+      by (apply any_true_PZ; exists T; exact HT). congruence.
+  - intros Hno. destruct (any_true _) eqn:E; [|reflexivity]. apply any_true_PZ in E.
+    destruct E as [T HT]. destruct (Hno T HT).
+Qed.
+
+(** equal keys at one level: the same family *)
+Lemma zkey_sub : forall L x y (Px Py : fpred), L < nlevels s -> ZDen s x Px -> ZDen s y Py ->
+  rlevel s x = L -> zkey L x = zkey L y -> forall M, Px M -> Py M.
+Proof.
+  intros L x y Px Py HL Dx Dy Lx E M HS. unfold zkey in E.
+  set (k := nlevels s - S L) in *. assert (Hn : L + S k = nlevels s) by (unfold k; lia).
+  inversion E as [[E0 E1]].
+  destruct (zden_support s x Px M B Dx HS) as [Hi Hfa]. rewrite Lx in Hi.
+  assert (Hfa' : Forall (fun z => z < L + (nlevels s - L)) M)
+    by (apply (forall_lt_weaken M (nlevels s)); [lia | exact Hfa]).
+  assert (Hsel : forall i, cs M L = i -> i < 2 ->
+            table (S L) k (zf L x) (cset (fun _ => 0) L i) = table (S L) k (zf L y) (cset (fun _ => 0) L i) ->
+            Py M).
+  { intros i Ei Hi2 Et.
+    set (c1 := cmerge (S L) k (cset (fun _ => 0) L i) (cs M)).
+    assert (HT : true_levels c1 L (nlevels s - L) = M).
+    { rewrite (true_levels_ext c1 (cs M) (nlevels s - L) L); [apply (true_levels_cs _ L M Hi Hfa')|].
+      intros l Hl. unfold c1. rewrite cmerge_spec. unfold cset.
+      destruct (Nat.leb_spec (S L) l), (Nat.ltb_spec l (S L + k)), (Nat.eqb_spec l L);
+        simpl; subst; try reflexivity; try lia. }
+    assert (Zx : zf L x c1 = true) by (apply (zf_den L x Px c1 Dx); rewrite HT; exact HS).
+    pose proof (table_inj _ _ _ _ _ _ Et (cs M) (bchoice_cs M)) as Eq. fold c1 in Eq.
+    rewrite Eq in Zx. apply (zf_den L y Py c1 Dy) in Zx. rewrite HT in Zx. exact Zx. }
+  pose proof (cs_lt2 M L) as H2. destruct (cs M L) as [|[|j]] eqn:Ec; [| |lia].
+  - apply (Hsel 0 eq_refl ltac:(lia) E0).
+  - apply (Hsel 1 eq_refl ltac:(lia) E1).
+Qed.
+
+Section NodesZ.
+Variable ns : list positive.
+Hypothesis Nns : NoDup ns.
+Hypothesis Hns : forall id, In id ns <-> reachable s [r] (RN id) /\ find_node s id <> None.
+
+Definition zat_level (L : nat) : list positive :=
+  filter (fun id => Nat.eqb (rlevel s (RN id)) L) ns.
+
+Lemma zat_level_In : forall L id, In id (zat_level L) <->
+  reachable s [r] (RN id) /\ find_node s id <> None /\ rlevel s (RN id) = L.
+Proof. intros L id. unfold zat_level. rewrite filter_In, Hns, Nat.eqb_eq. tauto. Qed.
+
+Lemma zat_level_sub : forall L id, In id (zat_level L) ->
+  exists p, bchoice p /\ ZDen s (RN id) (Q s f L p).
+Proof.
+  intros L id Hin. apply zat_level_In in Hin. destruct Hin as [Hr [_ Hl]].
+  destruct (zreachable_is_sub s B r f Hf D (RN id) Hr) as [p [Hp Dp]]. rewrite Hl in Dp. eauto.
+Qed.
+
+Lemma zlevel_count : forall L, L < nlevels s -> length (zat_level L) = level_nodes_z (nlevels s) L f.
+Proof.
+  intros L HL. unfold level_nodes_z.
+  rewrite <- (map_length (fun id => zkey L (RN id)) (zat_level L)).
+  apply NoDup_same_length.
+  - apply NoDup_map_inj; [apply NoDup_filter; exact Nns|].
+    intros a b Ha Hb Ek.
+    destruct (zat_level_sub L a Ha) as [p [Hp Da]]. destruct (zat_level_sub L b Hb) as [p' [Hp' Db]].
+    apply zat_level_In in Ha. apply zat_level_In in Hb.
+    destruct Ha as [_ [_ La]]. destruct Hb as [_ [_ Lb]].
+    assert (Hr : RN a = RN b); [|inversion Hr; reflexivity].
+    apply (zden_canon s _ _ _ _ B Da Db). intros S. split.
+    + apply (zkey_sub L (RN a) (RN b) _ _ HL Da Db La Ek).
+    + apply (zkey_sub L (RN b) (RN a) _ _ HL Db Da Lb (eq_sym Ek)).
+  - apply dedup_NoDup. exact pair_eqb_eq.
+  - intros pr. rewrite (dedup_In _ pair_eqb pair_eqb_eq), filter_In, subpairs_In. split.
+    + intros Hin. apply in_map_iff in Hin. destruct Hin as [id [<- Hin]].
+      destruct (zat_level_sub L id Hin) as [p [Hp Dp]].
+      rewrite (zkey_is_pair L p (RN id) HL Hp Dp). split; [exists p; auto|].
+      apply hi_nonempty_iff. apply (zsub_level_iff s B f L p (RN id) HL Dp).
+      apply zat_level_In in Hin. apply Hin.
+    + intros [[q [Hq ->]] Hhi]. apply hi_nonempty_iff in Hhi.
+      assert (Hne : exists S0, Q s f L q S0).
+      { destruct Hhi as [T HT]. exists (L :: T). apply (Q_step s f L q HL). left. exists T. auto. }
+      destruct (zsub_is_reachable s B r f Hf D L q ltac:(lia) Hq Hne) as [x [Rx [Dx Lx]]].
+      apply (zsub_level_iff s B f L q x HL Dx) in Hhi.
+      destruct x as [t|id]; [simpl in Hhi; lia|].
+      apply in_map_iff. exists id. split; [apply (zkey_is_pair L q (RN id) HL Hq Dx)|].
+      apply zat_level_In. split; [exact Rx|]. split; [|exact Hhi].
+      destruct (zden_ok _ _ _ Dx) as [nd En]. congruence.
+Qed.
+
+Lemma znodes_count : length ns = sum_upto (nlevels s) (fun L => level_nodes_z (nlevels s) L f).
+Proof.
+  rewrite (length_partition _ (fun id => rlevel s (RN id)) ns (nlevels s)).
+  - apply sum_upto_ext. intros L HL. apply (zlevel_count L HL).
+  - intros id Hin. apply Hns in Hin. destruct Hin as [_ Hfn].
+    destruct (find_node s id) as [nd|] eqn:En; [|congruence].
+    rewrite (rlevel_node s id nd En). apply (wf_level s H id nd En).
+Qed.
+
+End NodesZ.
+
+(** *** terminals *)
+
+(** a terminal's value: Base iff its family contains the empty set *)
+Lemma zterm_valb : forall t (P : fpred), ZDen s (RT t) P -> (valb s t = true <-> P []).
+Proof.
+  intros t P Dt. unfold valb.
+  destruct (zterm_cases s t B (zden_ok _ _ _ Dt)) as [E|E]; rewrite E.
+  - pose proof (zden_unique s _ P pempty Dt (zden_empty s t B E)) as Hq.
+    split; [discriminate | intros HP; destruct (proj1 (Hq []) HP)].
+  - pose proof (zden_unique s _ P pbase Dt (zden_base s t B E)) as Hq.
+    split; [intros _; apply (proj2 (Hq [])); reflexivity | reflexivity].
+Qed.
+
+Lemma zterm_empty : forall t (P : fpred), ZDen s (RT t) P -> valb s t = false -> forall S, ~ P S.
+Proof.
+  intros t P Dt Ev S HS. unfold valb in Ev.
+  destruct (zterm_cases s t B (zden_ok _ _ _ Dt)) as [E|E]; rewrite E in Ev; [|discriminate].
+  apply (proj1 (zden_unique s _ P pempty Dt (zden_empty s t B E) S) HS).
+Qed.
+
+(** a reference whose family is empty is the Empty terminal *)
+Lemma zempty_ref : forall x (P : fpred), ZDen s x P -> (forall S, ~ P S) ->
+  exists t, x = RT t /\ valb s t = false.
+Proof.
+  intros x P Dx Hno. destruct (zo_empty s B) as [t0 E0].
+  exists t0. split.
+  - apply (zden_canon s x (RT t0) P pempty B Dx (zden_empty s t0 B E0)).
+    intros S. unfold pempty. split; [apply Hno | tauto].
+  - unfold valb. rewrite E0. reflexivity.
+Qed.
+
+Lemma Q_top : forall p, Q s f (nlevels s) p [] <-> f (pre (nlevels s) p) = true.
+Proof.
+  intros p. unfold Q. rewrite Nat.sub_diag. rewrite PZ_zero. tauto.
+Qed.
+
+Lemma base_iff : (exists t, reachable s [r] (RT t) /\ valb s t = true) <->
+  any_true (table 0 (nlevels s) f (fun _ => 0)) = true.
+Proof.
+  split.
+  - intros [t [Rt Ev]].
+    destruct (zreachable_is_sub s B r f Hf D _ Rt) as [p [Hp Dp]]. simpl rlevel in Dp.
+    apply (zterm_valb t _ Dp) in Ev. apply Q_top in Ev.
+    unfold any_true. apply existsb_exists. exists true. split; [|reflexivity].
+    apply table_In. exists p. split; [exact Hp | symmetry; exact Ev].
+  - intros Hany. apply any_true_PZ in Hany. destruct Hany as [T [_ [_ Ev]]].
+    assert (Hne : exists S0, Q s f (nlevels s) (cs T) S0) by (exists []; apply Q_top; exact Ev).
+    destruct (zsub_is_reachable s B r f Hf D (nlevels s) (cs T) (le_n _) (bchoice_cs T) Hne) as [x [Rx [Dx Lx]]].
+    destruct x as [t|id].
+    + exists t. split; [exact Rx|]. apply (zterm_valb t _ Dx). apply Q_top. exact Ev.
+    + exfalso. destruct (zden_ok _ _ _ Dx) as [nd En]. rewrite (rlevel_node s id nd En) in Lx.
+      pose proof (wf_level s H id nd En). lia.
+Qed.
+
+Lemma empty_iff : (exists t, reachable s [r] (RT t) /\ valb s t = false) <->
+  negb (any_true (table 0 (nlevels s) f (fun _ => 0)))
+  || exists_upto (nlevels s) (fun L => lo_empty_at (nlevels s) L f) = true.
+Proof.
+  rewrite orb_true_iff, negb_true_iff, exists_upto_spec. split.
+  - intros [t [Rt Ev]]. inversion Rt as [x Hr|id nd e Hp En He Ee]; subst.
+    + (* the root itself *)
+      destruct Hr as [->|[]]. left.
+      destruct (any_true _) eqn:E; [|reflexivity]. apply any_true_PZ in E. destruct E as [T HT].
+      destruct (zterm_empty t _ D Ev T HT).
+    + (* a child of a reachable node: the else-child *)
+      right. destruct (zreachable_is_sub s B r f Hf D _ Hp) as [p [Hp0 Dn]].
+      rewrite (rlevel_node s id nd En) in Dn. pose proof (wf_level s H id nd En) as HL.
+      destruct (znode_children s B f id nd p En Dn) as [hi [lo [Ec [Dh Dl]]]].
+      assert (Hhi : exists T, Qc s f (nlevel nd) p 0 T)
+        by (apply (zsub_level_iff s B f (nlevel nd) p (RN id) HL Dn); apply (rlevel_node s id nd En)).
+      rewrite Ec in He. destruct He as [<-|[<-|[]]].
+      * exfalso. destruct Hhi as [T HT]. rewrite Ee in Dh. apply (zterm_empty t _ Dh Ev T HT).
+      * exists (nlevel nd). split; [exact HL|]. unfold lo_empty_at. apply existsb_exists.
+        exists (pair_at 0 (nlevel nd) (nlevels s - S (nlevel nd)) f (fun _ => 0) p).
+        split; [apply subpairs_In; exists p; auto|].
+        apply andb_true_iff. split; [apply hi_nonempty_iff; exact Hhi|].
+        apply negb_true_iff. apply lo_empty_iff. rewrite Ee in Dl. apply (zterm_empty t _ Dl Ev).
+  - intros [Hnone|[L [HL Hlo]]].
+    + (* the whole family is empty: the root is the Empty terminal *)
+      assert (Hno : forall S, ~ PZ f 0 (nlevels s) (fun _ => 0) S).
+      { intros S HS. assert (X : any_true (table 0 (nlevels s) f (fun _ => 0)) = true)
+          by (apply any_true_PZ; exists S; exact HS). congruence. }
+      destruct (zempty_ref r _ D Hno) as [t [-> Ev]].
+      exists t. split; [apply reach_root; left; reflexivity | exact Ev].
+    + unfold lo_empty_at in Hlo. apply existsb_exists in Hlo. destruct Hlo as [pr [Hin Hc]].
+      apply subpairs_In in Hin. destruct Hin as [q [Hq ->]].
+      apply andb_true_iff in Hc. destruct Hc as [Hhi Hlo]. apply negb_true_iff in Hlo.
+      apply hi_nonempty_iff in Hhi. pose proof (proj1 (lo_empty_iff L q) Hlo) as Hlo'. clear Hlo.
+      assert (Hne : exists S0, Q s f L q S0).
+      { destruct Hhi as [T HT]. exists (L :: T). apply (Q_step s f L q HL). left. exists T. auto. }
+      destruct (zsub_is_reachable s B r f Hf D L q ltac:(lia) Hq Hne) as [x [Rx [Dx Lx]]].
+      apply (zsub_level_iff s B f L q x HL Dx) in Hhi.
+      destruct x as [t|id]; [simpl in Hhi; lia|].
+      destruct (zden_ok _ _ _ Dx) as [nd En]. rewrite (rlevel_node s id nd En) in Hhi. subst L.
+      destruct (znode_children s B f id nd q En Dx) as [hi [lo [Ec [_ Dl]]]].
+      destruct (zempty_ref (eref lo) _ Dl Hlo') as [t [Et Ev]].
+      exists t. split; [|exact Ev]. rewrite <- Et.
+      apply (reach_child s [r] id nd lo Rx En). rewrite Ec. right. left. reflexivity.
+Qed.
+
+Lemma zterminals_count : forall ts, NoDup ts -> (forall t, In t ts <-> reachable s [r] (RT t)) ->
+  length ts =
+  (if any_true (table 0 (nlevels s) f (fun _ => 0)) then 1 else 0)
+  + (if negb (any_true (table 0 (nlevels s) f (fun _ => 0)))
+        || exists_upto (nlevels s) (fun L => lo_empty_at (nlevels s) L f) then 1 else 0).
+Proof.
+  intros ts Nts Hts.
+  assert (Nv : NoDup (map (valb s) ts)).
+  { apply NoDup_map_inj; [exact Nts|]. intros t u Ht Hu Ev.
+    apply Hts in Ht. apply Hts in Hu.
+    destruct (zreachable_is_sub s B r f Hf D _ Ht) as [p [_ Dt]].
+    destruct (zreachable_is_sub s B r f Hf D _ Hu) as [p' [_ Du]].
+    destruct (zden_ok _ _ _ Dt) as [v Et]. destruct (zden_ok _ _ _ Du) as [w Eu].
+    apply (term_val_inj s t u v H Et). rewrite Eu. f_equal. unfold valb in Ev. rewrite Et, Eu in Ev.
+    destruct (zo_codes s B t v Et) as [->| ->], (zo_codes s B u w Eu) as [->| ->];
+      try reflexivity; discriminate. }
+  rewrite <- (map_length (valb s) ts), (bool_list_count _ Nv).
+  assert (E1 : existsb (fun b : bool => b) (map (valb s) ts) = any_true (table 0 (nlevels s) f (fun _ => 0))).
+  { apply (bool_iff_eq _ _ (exists t, reachable s [r] (RT t) /\ valb s t = true)); [|symmetry; apply base_iff].
+    rewrite existsb_exists. split.
+    - intros [b [Hin Hb]]. apply in_map_iff in Hin. destruct Hin as [t [<- Ht]].
+      exists t. split; [apply Hts; exact Ht | exact Hb].
+    - intros [t [Rt Ev]]. exists true. split; [|reflexivity]. rewrite <- Ev. apply in_map. apply Hts. exact Rt. }
+  assert (E2 : existsb negb (map (valb s) ts) =
+               negb (any_true (table 0 (nlevels s) f (fun _ => 0)))
+               || exists_upto (nlevels s) (fun L => lo_empty_at (nlevels s) L f)).
+  { apply (bool_iff_eq _ _ (exists t, reachable s [r] (RT t) /\ valb s t = false)); [|symmetry; apply empty_iff].
+    rewrite existsb_exists. split.
+    - intros [b [Hin Hb]]. apply in_map_iff in Hin. destruct Hin as [t [<- Ht]].
+      exists t. split; [apply Hts; exact Ht | apply negb_true_iff; exact Hb].
+    - intros [t [Rt Ev]]. exists false. split; [|reflexivity]. rewrite <- Ev. apply in_map. apply Hts. exact Rt. }
+  rewrite E1, E2. reflexivity.
+Qed.
+
+Theorem zbdd_count_is_canon_size : count_reach s (E r) = canon_size_zbdd (nlevels s) f.
+Proof.
+  destruct (count_reach_spec s (wf_arity_ok s H) (E r)) as [ns [ts [Nn [Nt [Hn [Ht Hc]]]]]].
+  simpl eref in *. rewrite Hc. unfold canon_size_zbdd. cbv zeta. f_equal.
+  rewrite (znodes_count ns Nn Hn), (zterminals_count ts Nt Ht). lia.
+Qed.
+
+End CountZ.
+
+(** the Boolean function of a ZBDD handle depends on the levels of the table only *)
+Lemma cfun_of_levels_only_zbdd : forall s e, ZbddOK s -> levels_only (nlevels s) (cfun_of s e).
+Proof.
+  intros s e B c c' E. unfold cfun_of. rewrite !(sem_edge_zbdd_code s e _ (zo_kind s B)).
+  rewrite (semz_ext_lt s (zo_wf s B) _ 0 (eref e) c c'); [reflexivity|]. intros l Hl. apply E. lia.
+Qed.
+
+(** for every existing edge of a well-formed ZBDD table *)
+Theorem zbdd_node_count_canon_size : forall s e, ZbddOK s -> ref_ok s (eref e) ->
+  count_reach s e = canon_size_zbdd (nlevels s) (cfun_of s e).
+Proof.
+  intros s e B O.
+  assert (Ec : count_reach s e = count_reach s (E (eref e))) by reflexivity.
+  rewrite Ec. apply (zbdd_count_is_canon_size s B (eref e) _ (cfun_of_levels_only_zbdd s e B)
+                       (cfun_of_den_zbdd s e B O)).
+Qed.
+
+(** and for the diagram [build_zbdd] constructs, for a function of the [n] levels *)
+Theorem build_zbdd_canon_size : forall v2l l2v f, order_ok v2l l2v -> levels_only (length l2v) f ->
+  exists s e, build_zbdd v2l l2v f = Some (s, e) /\ ZbddOK s /\
+    count_reach s e = canon_size_zbdd (length l2v) f.
+Proof.
+  intros v2l l2v f Ho Lf. destruct (build_zbdd_ok v2l l2v f Ho) as [s [e [E0 [B [_ [El [_ [Et D]]]]]]]].
+  exists s, e. split; [exact E0|]. split; [exact B|].
+  assert (Hn : nlevels s = length l2v) by (unfold nlevels; rewrite El; reflexivity).
+  rewrite <- Hn in *.
+  replace e with (E (eref e)) by (destruct e as [x t]; simpl in *; subst; reflexivity).
+  apply (zbdd_count_is_canon_size s B (eref e) f Lf D).
+Qed.
+
+Example ex_canon_size_zbdd :
+  canon_size_zbdd (nlevels ex_zbdd) (cfun_of ex_zbdd (ex_edge (RN 2))) = 4%N /\
+  count_reach ex_zbdd (ex_edge (RN 2)) = 4%N /\
+  canon_size_zbdd 4 (lvl_fun [0; 1; 2; 3] (fun a => (a 0 && a 1) || (a 2 && a 3))) = 9%N /\
+  canon_size_zbdd 4 (lvl_fun [0; 2; 1; 3] (fun a => (a 0 && a 1) || (a 2 && a 3))) = 10%N /\
+  canon_size_zbdd 3 (fun _ => false) = 1%N /\
+  canon_size_zbdd 3 (fun c => Nat.eqb (c 0) 1 && Nat.eqb (c 1) 1 && Nat.eqb (c 2) 1) = 1%N.
+Proof. vm_compute. repeat split; reflexivity. Qed.
